@@ -1,11 +1,12 @@
-(* C14 — basic facts about the model: step inversion, only the loop thread is at a loop
-   program point, the handle's mutex excludes. *)
-From MV Require Import C14.Model.
+(* C14 — basic facts about the model: step inversion, the frame of the loop thread's "tail"
+   segments (exit test, timer, rest of a pass, end of a callback), only the loop thread is at a
+   loop program point, the handle's mutex excludes, facts about the back-end's pass. *)
+From MV Require Export C14.Model C14.ProofsFacts.
 
 Definition is_loop_pc (p : pc) : bool :=
   match p with
   | APoll | SRepoll | SPollRet | ARead | SWake | AWLock | SRel _ _ | ARel _ _ | AWUnlock
-  | SWakeEnd | AXLock | AXUnlock | SRet => true
+  | SWakeEnd | Cb _ | AXLock | AXUnlock | SRet => true
   | _ => false
   end.
 
@@ -13,17 +14,18 @@ Definition is_loop_pc (p : pc) : bool :=
 Definition holds (p : pc) : bool :=
   match p with
   | SHEnq _ _ | AHUnlock _ | SRel PhDrain _ | ARel PhDrain _ | AWUnlock
-  | SRel PhExit _ | ARel PhExit _ | AXUnlock => true
+  | SRel PhExit _ | ARel PhExit _ | AXUnlock | Cb (QHE _ _) | Cb (QHU _) => true
   | _ => false
   end.
 
-Lemma thr_set_pc_same s t p : thr (set_pc s t p) t = p.
-Proof. unfold set_pc; simpl. apply upd_same. Qed.
-Lemma thr_set_pc_other s t u p : u <> t -> thr (set_pc s t p) u = thr s u.
-Proof. intros H. unfold set_pc; simpl. now apply upd_other. Qed.
 
-(* case analysis of one step: one goal per branch of [step], with the equations of every
-   test along the way *)
+Lemma thr_set_pc_same s t p : thr (set_pc s t p) t = p.
+Proof. nrmg. apply upd_same. Qed.
+Lemma thr_set_pc_other s t u p : u <> t -> thr (set_pc s t p) u = thr s u.
+Proof. intros H. nrmg. now apply upd_other. Qed.
+
+(* case analysis of one step: one goal per branch of [step]; the tail segments (cb_next, cb_end,
+   wake_end, seg_pass, fin_pass, exit_test) stay folded: they are handled by their own lemmas *)
 Ltac step_split H :=
   repeat match type of H with
   | (if negb ?a then _ else _) = Some _ => destruct a eqn:?; simpl negb in H; cbv iota in H; [|discriminate H]
@@ -33,17 +35,21 @@ Ltac step_split H :=
   | (match ?a with (_, _) => _ end) = Some _ => destruct a eqn:?
   | None = Some _ => discriminate H
   end.
-Ltac step_inv H := unfold step, seg_drain, seg_clear, seg_exit in H; step_split H; try discriminate H; inversion H; subst; clear H.
-
-Record BInv (C : config) (s : sys) : Prop := {
-  b_loop : forall t, is_loop_pc (thr s t) = true -> t = c_loop C;
-  b_hold : forall t, holds (thr s t) = true -> mtx s = Some t;
-  b_free : forall u, mtx s = Some u -> holds (thr s u) = true;
-  b_valid : forall t, thr s t <> SStart -> Nat.ltb t (c_n C) = true /\ created s = true;
-}.
-
-Lemma init_binv C : BInv C init.
-Proof. constructor; simpl; intros; try discriminate; congruence. Qed.
+(* equations [op_begin ... = (s1, next, notes)] left by the split: one goal per operation *)
+Ltac split_pairs :=
+  repeat match goal with
+  | H : (match ?a with _ => _ end) = (_, _) |- _ => destruct a eqn:?
+  | H : (if ?a then _ else _) = (_, _) |- _ => destruct a eqn:?
+  | H : (_, _, _) = (_, _, _) |- _ =>
+    inversion H; clear H; repeat match goal with E : _ = ?y |- _ => is_var y; subst y end
+  end.
+Ltac step_fin H :=
+  match type of H with
+  | Some _ = Some _ => inversion H; subst; clear H
+  | _ => idtac
+  end.
+Ltac step_inv H :=
+  unfold step, seg_drain, seg_clear, seg_exit, op_begin in H; step_split H; try discriminate H; step_fin H; split_pairs.
 
 Ltac upd_cases :=
   repeat match goal with
@@ -57,43 +63,359 @@ Ltac use_eqb :=
   | H : Nat.eqb _ _ = false |- _ => apply Nat.eqb_neq in H
   end.
 
+(* ------------------------------------------------------------------ *)
+(* the tail segments of the loop thread: what they leave unchanged, where they end *)
+Record tframe (s s' : sys) (t : nat) : Prop := {
+  tf_cnt : cnt s' = cnt s;
+  tf_edge : edge s' = edge s;
+  tf_tidf : tidf s' = tidf s;
+  tf_created : created s' = created s;
+  tf_mtx : mtx s' = mtx s;
+  tf_queue : queue s' = queue s;
+  tf_next_id : next_id s' = next_id s;
+  tf_reg : reg s' = reg s;
+  tf_g_enq : g_enq s' = g_enq s;
+  tf_g_relfail : g_relfail s' = g_relfail s;
+  tf_g_relexit : g_relexit s' = g_relexit s;
+  tf_g_relclear : g_relclear s' = g_relclear s;
+  tf_g_leaked : g_leaked s' = g_leaked s;
+  tf_g_late : g_late s' = g_late s;
+  tf_w_req : w_req s' = w_req s;
+  tf_w_seen : w_seen s' = w_seen s;
+  tf_erl : erl s' = erl s;
+  tf_slots : slots s' = slots s;
+  tf_rdy : rdy s' = rdy s;
+  tf_rdh : rdh s' = rdh s;
+  tf_wkn : wkn s' = wkn s;
+  tf_g_relclose : g_relclose s' = g_relclose s;
+  tf_peof : peof s' = peof s;
+  tf_g_uaf : g_uaf s' = g_uaf s;
+  tf_thr : forall u, u <> t -> thr s' u = thr s u;
+}.
+
+Lemma tframe_refl s t : tframe s s t.
+Proof. constructor; reflexivity. Qed.
+Lemma tframe_trans s1 s2 s3 t : tframe s1 s2 t -> tframe s2 s3 t -> tframe s1 s3 t.
+Proof.
+  intros [] []. constructor; try congruence. intros u Hu. rewrite tf_thr1 by exact Hu. apply tf_thr0. exact Hu.
+Qed.
+
+Ltac tframe_tac := constructor; try reflexivity; intros; nrmg; unfold upd;
+  match goal with |- (if Nat.eqb ?u ?t then _ else _) = _ => destruct (Nat.eqb_spec u t); [contradiction|reflexivity] end.
+
+(* where a tail segment ends *)
+Definition tail_pc (p : pc) : Prop :=
+  p = ARead \/ (exists id, p = ARel PhClose id) \/ p = APoll \/ (exists id, p = ARel PhClear id) \/ p = AXLock \/
+  p = AFin \/ p = Cb (QY 0).
+Definition tail_pc_cb (p : pc) : Prop := tail_pc p \/ exists k, p = Cb (QY (S k)).
+
+Lemma exit_test_frame C s t ns s' l : exit_test C s t ns = Some (s', l) ->
+  tframe s s' t /\ to_exit s' = to_exit s /\ hup s' = hup s /\ inp s' = inp s /\ tail_pc (thr s' t).
+Proof.
+  unfold exit_test, tail_pc. intros H.
+  destruct (to_exit s =? ST_EXIT); [destruct (c_bare C); [|destruct (reg s) as [|id r]]|];
+    inversion H; subst; clear H; (split; [tframe_tac|]); nrmg; rewrite upd_same; repeat split; eauto 10.
+Qed.
+
+Lemma fin_pass_frame C s t ns s' l : fin_pass C s t ns = Some (s', l) ->
+  tframe s s' t /\ to_exit s' = to_exit s /\ hup s' = hup s /\ inp s' = inp s /\ tail_pc (thr s' t).
+Proof.
+  unfold fin_pass. intros H.
+  destruct (c_tmo C && c_cb_timer C); [|eapply exit_test_frame; eauto].
+  match type of H with (if is_nil (cbs ?x) then _ else _) = _ => set (s1 := x) in * end.
+  assert (F1 : tframe s s1 t) by (unfold s1; tframe_tac).
+  assert (E1 : to_exit s1 = to_exit s /\ hup s1 = hup s /\ inp s1 = inp s) by (unfold s1; nrmg; auto).
+  destruct E1 as (E1 & E2 & E3).
+  destruct (is_nil (cbs s1)).
+  - apply exit_test_frame in H. destruct H as (F & A & B & D & P).
+    split; [eapply tframe_trans; eauto|]. repeat split; try congruence; try exact P.
+  - inversion H; subst; clear H. split; [eapply tframe_trans; [exact F1|tframe_tac]|].
+    nrmg. rewrite upd_same. repeat split; try assumption. unfold tail_pc. auto 10.
+Qed.
+
+Lemma seg_pass_frame C s t ns s' l : seg_pass C s t ns = Some (s', l) ->
+  tframe s s' t /\ to_exit s' = to_exit s /\ tail_pc (thr s' t).
+Proof.
+  unfold seg_pass. intros H.
+  destruct (pass C (hup s) (peof s) (rdy s) (rdh s) (psig s) (pn s) (todo s) ns []) as [[[[n td] r] ns'] dr].
+  destruct r as [|id|].
+  - inversion H; subst; clear H. split; [tframe_tac|]. nrmg. rewrite upd_same. split; [reflexivity|]. unfold tail_pc; auto.
+  - inversion H; subst; clear H. split; [tframe_tac|]. nrmg. rewrite upd_same. split; [reflexivity|]. unfold tail_pc; eauto.
+  - apply fin_pass_frame in H. destruct H as (F & A & _ & _ & P).
+    split; [eapply tframe_trans; [|exact F]; tframe_tac|]. split; [|exact P]. rewrite A. nrmg. reflexivity.
+Qed.
+
+Lemma wake_end_frame C s t ns s' l : wake_end C s t ns = Some (s', l) ->
+  tframe s s' t /\ to_exit s' = (if Nat.eqb (to_exit s) ST_WAKE then ST_EXIT else to_exit s) /\ tail_pc (thr s' t).
+Proof.
+  unfold wake_end. intros H. apply seg_pass_frame in H. destruct H as (F & A & P).
+  split; [eapply tframe_trans; [|exact F]; tframe_tac|]. split; [|exact P]. rewrite A. nrmg. reflexivity.
+Qed.
+
+Lemma cb_end_frame C s t ns s' l : cb_end C s t ns = Some (s', l) ->
+  tframe s s' t /\ tail_pc (thr s' t) /\
+  (to_exit s' = to_exit s \/ (to_exit s = ST_WAKE /\ to_exit s' = ST_EXIT)).
+Proof.
+  unfold cb_end. intros H. destruct (cbk s).
+  - apply exit_test_frame in H. destruct H as (F & A & _ & _ & P). auto.
+  - apply wake_end_frame in H. destruct H as (F & A & P). split; [exact F|]. split; [exact P|].
+    destruct (Nat.eqb_spec (to_exit s) ST_WAKE); auto.
+Qed.
+
+Lemma cb_next_frame C s t k ns s' l : cb_next C s t k ns = Some (s', l) ->
+  tframe s s' t /\ tail_pc_cb (thr s' t) /\
+  (to_exit s' = to_exit s \/ (to_exit s = ST_WAKE /\ to_exit s' = ST_EXIT)).
+Proof.
+  unfold cb_next. intros H. destruct (S k <? length (cbs s)).
+  - inversion H; subst; clear H. split; [tframe_tac|]. nrmg. rewrite upd_same. split; [right; eauto|auto].
+  - apply cb_end_frame in H. destruct H as (F & P & A). split; [exact F|]. split; [left; exact P|exact A].
+Qed.
+
+(* every tail, for facts that hold of all of them *)
+Ltac tail_frames :=
+  repeat match goal with
+  | H : exit_test _ _ _ _ = Some _ |- _ => apply exit_test_frame in H; destruct H as (?F & ?A & ?Eh & ?Ei & ?P)
+  | H : fin_pass _ _ _ _ = Some _ |- _ => apply fin_pass_frame in H; destruct H as (?F & ?A & ?Eh & ?Ei & ?P)
+  | H : seg_pass _ _ _ _ = Some _ |- _ => apply seg_pass_frame in H; destruct H as (?F & ?A & ?P)
+  | H : wake_end _ _ _ _ = Some _ |- _ => apply wake_end_frame in H; destruct H as (?F & ?A & ?P)
+  | H : cb_end _ _ _ _ = Some _ |- _ => apply cb_end_frame in H; destruct H as (?F & ?P & ?A)
+  | H : cb_next _ _ _ _ _ = Some _ |- _ => apply cb_next_frame in H; destruct H as (?F & ?P & ?A)
+  end.
+
+Lemma tail_pc_loop p : tail_pc_cb p -> (is_loop_pc p = true \/ p = AFin) /\ holds p = false.
+Proof.
+  unfold tail_pc_cb, tail_pc. intros H.
+  repeat match goal with H : _ \/ _ |- _ => destruct H | H : exists _, _ |- _ => destruct H end; subst; simpl; auto.
+Qed.
+
+(* ------------------------------------------------------------------ *)
+Record BInv (C : config) (s : sys) : Prop := {
+  b_loop : forall t, is_loop_pc (thr s t) = true -> t = c_loop C;
+  b_hold : forall t, holds (thr s t) = true -> mtx s = Some t;
+  b_free : forall u, mtx s = Some u -> holds (thr s u) = true;
+  b_valid : forall t, thr s t <> SStart -> Nat.ltb t (c_n C) = true /\ created s = true;
+}.
+
+Lemma init_binv C : BInv C init.
+Proof. constructor; simpl; intros; try discriminate; congruence. Qed.
+
+(* a step of thread t that moves it from a loop point (or to a point that is not one) to p, with
+   the mutex and the creation flag as given *)
+Lemma binv_move C s s' t p :
+  BInv C s -> (forall u, u <> t -> thr s' u = thr s u) -> thr s' t = p ->
+  thr s t <> SStart -> created s' = created s ->
+  (is_loop_pc p = true -> t = c_loop C) ->
+  (* mutex: unchanged and p holds iff the old point held; or taken; or released *)
+  ((mtx s' = mtx s /\ holds p = holds (thr s t)) \/
+   (mtx s = None /\ mtx s' = Some t /\ holds p = true) \/
+   (holds (thr s t) = true /\ mtx s' = None /\ holds p = false)) ->
+  BInv C s'.
+Proof.
+  intros [Hl Hh Hf Hv] Ho Hp Hns Hc Hlp Hm.
+  assert (Hvt := Hv t Hns).
+  constructor.
+  - intros u Hu. destruct (Nat.eq_dec u t) as [->|ne]; [apply Hlp; rewrite <- Hp; exact Hu|].
+    apply Hl. rewrite <- (Ho u ne). exact Hu.
+  - intros u Hu. destruct (Nat.eq_dec u t) as [->|ne].
+    + rewrite Hp in Hu. destruct Hm as [[M1 M2]|[(M1 & M2 & M3)|(M1 & M2 & M3)]]; try congruence.
+      rewrite M1. apply Hh. congruence.
+    + rewrite (Ho u ne) in Hu. pose proof (Hh u Hu) as K.
+      destruct Hm as [[M1 M2]|[(M1 & M2 & M3)|(M1 & M2 & M3)]]; try congruence.
+      pose proof (Hh t M1). congruence.
+  - intros u Hu. destruct (Nat.eq_dec u t) as [->|ne].
+    + rewrite Hp. destruct Hm as [[M1 M2]|[(M1 & M2 & M3)|(M1 & M2 & M3)]]; try congruence.
+      rewrite M2. apply Hf. congruence.
+    + rewrite (Ho u ne). destruct Hm as [[M1 M2]|[(M1 & M2 & M3)|(M1 & M2 & M3)]]; try congruence.
+      apply Hf. congruence.
+  - intros u Hu. rewrite Hc. destruct (Nat.eq_dec u t) as [->|ne]; [exact Hvt|].
+    apply Hv. rewrite <- (Ho u ne). exact Hu.
+Qed.
+
 Lemma step_binv C s t ch s' l : BInv C s -> step C s t ch = Some (s', l) -> BInv C s'.
 Proof.
-  intros [Hl Hh Hf Hv] Hs.
+  intros B Hs. pose proof B as [Hl Hh Hf Hv].
+  assert (Hlt := Hl t). assert (Hht := Hh t).
   step_inv Hs.
   all: repeat match goal with ph : phase |- _ => destruct ph end.
-  all: match goal with E : thr _ ?t0 = _ |- _ =>
-         pose proof (Hl t0) as Hlt; pose proof (Hh t0) as Hht; pose proof (Hv t0) as Hvt;
-         rewrite E in Hlt, Hht, Hvt; simpl in Hlt, Hht, Hvt end.
-  all: constructor; unfold set_pc; simpl.
-  (* b_loop *)
-  all: try (intros u Hu; upd_cases; simpl in Hu;
-            first [ discriminate Hu | apply Hl; assumption | apply Hlt; reflexivity
-                  | apply Nat.eqb_eq; assumption ]).
-  (* b_hold *)
-  all: try (intros u Hu; upd_cases; simpl in Hu;
-            first [ discriminate Hu | reflexivity | apply Hh; assumption | apply Hht; reflexivity
-                  | (* another thread holds: then the mutex is not free / not ours *)
-                    exfalso; pose proof (Hh u Hu) as K; specialize (Hht eq_refl); congruence
-                  | exfalso; pose proof (Hh u Hu) as K; congruence ]).
-  (* b_free *)
-  all: try (intros u Hu; simpl in Hu; upd_cases; simpl;
-            first [ discriminate Hu | reflexivity | apply Hf; assumption
-                  | injection Hu as Hu; subst; contradiction
-                  | (* the stepping thread is said to hold the mutex although its point does not *)
-                    exfalso; pose proof (Hf _ Hu) as K; match goal with E : thr _ _ = _ |- _ => rewrite E in K end;
-                    simpl in K; discriminate K
-                  | injection Hu as Hu; subst; apply Hf;
-                    first [ assumption | apply Hht; reflexivity ] ]).
-  (* b_valid *)
-  all: try (intros u Hu; upd_cases;
-            first [ apply Hv; assumption | destruct (Hv u Hu); split; auto
-                  | split; [assumption | first [ reflexivity | apply Hvt; discriminate
-                      | match goal with H1 : (?a || ?b) = true, H2 : ?a = false |- ?b = true =>
-                          rewrite H2 in H1; exact H1 end ] ] ]).
-  all: intros u Hu; upd_cases; [split; [assumption|exact Heqb0] | apply Hv; assumption].
+  all: simpl in Hlt, Hht.
+  (* the first step of T0 creates the loop *)
+  all: try (match goal with E : thr _ _ = SStart |- _ => idtac end;
+            constructor; nrmg;
+            [ intros u Hu; unfold upd in Hu; destruct (Nat.eqb_spec u t); [discriminate Hu|apply Hl; exact Hu]
+            | intros u Hu; unfold upd in Hu; destruct (Nat.eqb_spec u t); [discriminate Hu|apply Hh; exact Hu]
+            | intros u Hu; unfold upd; destruct (Nat.eqb_spec u t);
+              [subst; specialize (Hf _ Hu); match goal with E : thr _ _ = SStart |- _ => rewrite E in Hf end; discriminate Hf
+              |apply Hf; exact Hu]
+            | intros u Hu; unfold upd in Hu; destruct (Nat.eqb_spec u t);
+              [ subst; split; [assumption|first [reflexivity|
+                  match goal with H1 : false || ?b = true |- ?b = true => exact H1 end|
+                  match goal with H1 : (?a || ?b) = true, H2 : ?a = false |- ?b = true => rewrite H2 in H1; exact H1 end]]
+              | destruct (Hv u Hu); split; auto ] ]; fail).
+  (* tails *)
+  all: tail_frames.
+  all: try (match goal with P : tail_pc (thr ?s1 ?t0) |- _ =>
+              apply (or_introl (B := exists k, thr s1 t0 = Cb (QY (S k)))) in P; fold (tail_pc_cb (thr s1 t0)) in P end).
+  all: try (match goal with B0 : BInv ?C0 ?s0, F : tframe _ ?s1 ?t0, P : tail_pc_cb (thr ?s1 ?t0) |- BInv ?C0 ?s1 =>
+              destruct (tail_pc_loop _ P) as [Pl Ph]; destruct F;
+              eapply (binv_move C0 s0 s1 t0 (thr s1 t0) B0);
+              [ intros u Hu; rewrite tf_thr0 by exact Hu; nrmg; try reflexivity; apply upd_other; exact Hu
+              | reflexivity
+              | match goal with E : thr _ _ = _ |- _ => rewrite E; discriminate end
+              | rewrite tf_created0; nrmg; reflexivity
+              | intros Hp; destruct Pl as [Pl|Pl]; [apply Hlt; reflexivity|rewrite Pl in Hp; discriminate Hp]
+              | left; split; [rewrite tf_mtx0; nrmg; reflexivity
+                             |rewrite Ph; match goal with E : thr _ _ = _ |- _ => rewrite E; reflexivity end] ] end; fail).
+  (* explicit steps *)
+  all: match goal with B0 : BInv ?C0 ?s0 |- BInv ?C0 (set_pc ?s1 ?t0 ?p) =>
+         eapply (binv_move C0 s0 (set_pc s1 t0 p) t0 p B0);
+         [ intros u Hu; nrmg; apply upd_other; exact Hu
+         | nrmg; apply upd_same
+         | match goal with E : thr _ _ = _ |- _ => rewrite E; discriminate end
+         | nrmg; reflexivity
+         | simpl; intros Hp; first [discriminate Hp | apply Hlt; reflexivity | apply Nat.eqb_eq; assumption]
+         | nrmg; match goal with E : thr _ _ = _ |- _ => rewrite E end; simpl;
+           first [ left; split; reflexivity
+                 | right; left; repeat split; [assumption|reflexivity]
+                 | right; left; repeat split; assumption
+                 | right; right; repeat split; reflexivity ] ] end.
 Qed.
 
 Theorem binv_all C sched : BInv C (exec sys (step C) init sched).
 Proof. apply inv_exec; [|apply init_binv]. intros; eapply step_binv; eauto. Qed.
 
+(* ------------------------------------------------------------------ *)
+(* the back-end's pass *)
+Definition has_none (l : list (option nat)) : bool :=
+  existsb (fun o => match o with None => true | Some _ => false end) l.
+
+Lemma has_none_In l : has_none l = true <-> In None l.
+Proof.
+  unfold has_none. rewrite existsb_exists. split.
+  - intros (x & Hx & Hn). destruct x; [discriminate|exact Hx].
+  - intros H. exists None. split; [exact H|reflexivity].
+Qed.
+
+Ltac pass_ind td :=
+  induction td as [|[x|] r IH]; intros n ns dr H; simpl in H;
+  [ | destruct (memb x _ || _) eqn:?; [|destruct (poll_done _ _) eqn:?] | ].
+
+(* a pass that stops at a context to close has not gone past a reported signal *)
+Lemma pass_close_keeps_none C hp pe rd rh n td ns dr n' td' id ns' dr' :
+  pass C hp pe rd rh true n td ns dr = (n', td', PClose id, ns', dr') -> In None td -> In None td'.
+Proof.
+  revert n ns dr. pass_ind td; intros Hin.
+  - inversion H.
+  - inversion H; subst. destruct Hin as [Hin|Hin]; [discriminate|exact Hin].
+  - inversion H.
+  - destruct Hin as [Hin|Hin]; [discriminate|]. eapply IH; eauto.
+  - inversion H.
+Qed.
+
+Lemma pass_close_flagged C hp pe rd rh sg n td ns dr n' td' id ns' dr' :
+  pass C hp pe rd rh sg n td ns dr = (n', td', PClose id, ns', dr') ->
+  (memb id hp = true \/ (memb id rd = true /\ memb id pe = true)) /\ In (Some id) td.
+Proof.
+  revert n ns dr. pass_ind td.
+  - inversion H.
+  - inversion H; subst. split; [|left; reflexivity].
+    apply orb_prop in Heqb. destruct Heqb as [E|E]; [left; exact E|right; apply andb_prop in E; exact E].
+  - inversion H.
+  - destruct (IH _ _ _ H) as [H1 H2]. split; [exact H1|right; exact H2].
+  - destruct sg; [inversion H|]. destruct (IH _ _ _ H) as [H1 H2]. split; [exact H1|right; exact H2].
+Qed.
+
+(* only the poll back-end (n <= 0) ends a pass before it has reached a reported signal *)
+Lemma pass_end_none_poll C hp pe rd rh n td ns dr n' td' ns' dr' :
+  pass C hp pe rd rh true n td ns dr = (n', td', PEnd, ns', dr') -> In None td -> c_be C = BPoll.
+Proof.
+  revert n ns dr. pass_ind td; intros Hin.
+  - contradiction.
+  - inversion H.
+  - unfold poll_done in Heqb0. destruct (c_be C); try discriminate; reflexivity.
+  - destruct Hin as [Hin|Hin]; [discriminate|]. eapply IH; eauto.
+  - inversion H.
+Qed.
+
+Lemma pass_end_nil C hp pe rd rh sg n td ns dr n' td' ns' dr' :
+  pass C hp pe rd rh sg n td ns dr = (n', td', PEnd, ns', dr') -> td' = [].
+Proof.
+  revert n ns dr. pass_ind td.
+  - inversion H; reflexivity.
+  - inversion H.
+  - inversion H; reflexivity.
+  - eapply IH; eauto.
+  - destruct sg; [inversion H|]. eapply IH; eauto.
+Qed.
+
+Lemma pass_read_sg C hp pe rd rh sg n td ns dr n' td' ns' dr' :
+  pass C hp pe rd rh sg n td ns dr = (n', td', PRead, ns', dr') -> sg = true /\ In None td.
+Proof.
+  revert n ns dr. pass_ind td.
+  - inversion H.
+  - inversion H.
+  - inversion H.
+  - destruct (IH _ _ _ H). split; [assumption|right; assumption].
+  - destruct sg; [split; [reflexivity|left; reflexivity]|]. destruct (IH _ _ _ H). split; [assumption|right; assumption].
+Qed.
+
+(* what remains to visit is a part of what was to visit *)
+Lemma pass_length C hp pe rd rh sg n td ns dr n' td' r ns' dr' :
+  pass C hp pe rd rh sg n td ns dr = (n', td', r, ns', dr') -> length td' <= length td.
+Proof.
+  revert n ns dr. induction td as [|[x|] rr IH]; intros n ns dr H; simpl in H.
+  - inversion H; subst; simpl; lia.
+  - destruct (memb x hp || _); [inversion H; subst; simpl; lia|].
+    destruct (poll_done C _); [inversion H; subst; simpl; lia|]. specialize (IH _ _ _ H). simpl. lia.
+  - destruct sg; [inversion H; subst; simpl; lia|]. specialize (IH _ _ _ H). simpl. lia.
+Qed.
+
+Lemma pass_incl C hp pe rd rh sg n td ns dr n' td' r ns' dr' :
+  pass C hp pe rd rh sg n td ns dr = (n', td', r, ns', dr') -> incl td' td.
+Proof.
+  revert n ns dr. induction td as [|[x|] rr IH]; intros n ns dr H; simpl in H.
+  - inversion H; subst. apply incl_refl.
+  - destruct (memb x hp || _); [inversion H; subst; apply incl_tl, incl_refl|].
+    destruct (poll_done C _); [inversion H; subst; intros y Hy; destruct Hy|]. apply incl_tl. eapply IH; eauto.
+  - destruct sg; [inversion H; subst; apply incl_tl, incl_refl|]. apply incl_tl. eapply IH; eauto.
+Qed.
+
+(* the context to close has been taken off the list: what remains is a strict suffix *)
+Lemma pass_close_suffix C hp pe rd rh sg n td ns dr n' td' id ns' dr' :
+  pass C hp pe rd rh sg n td ns dr = (n', td', PClose id, ns', dr') -> exists pre, td = pre ++ Some id :: td'.
+Proof.
+  revert n ns dr. pass_ind td.
+  - inversion H.
+  - inversion H; subst. exists []. reflexivity.
+  - inversion H.
+  - destruct (IH _ _ _ H) as [pre ->]. exists (Some x :: pre). reflexivity.
+  - destruct sg; [inversion H|]. destruct (IH _ _ _ H) as [pre ->]. exists (None :: pre). reflexivity.
+Qed.
+
+(* ------------------------------------------------------------------ *)
+(* the tail segments always complete *)
+Lemma exit_test_total C s t ns : exit_test C s t ns <> None.
+Proof. unfold exit_test. destruct (to_exit s =? ST_EXIT); [destruct (c_bare C); [|destruct (reg s)]|]; discriminate. Qed.
+Lemma fin_pass_total C s t ns : fin_pass C s t ns <> None.
+Proof.
+  unfold fin_pass. destruct (c_tmo C && c_cb_timer C); [|apply exit_test_total].
+  match goal with |- (if ?b then _ else _) <> None => destruct b end; [apply exit_test_total|discriminate].
+Qed.
+Lemma seg_pass_total C s t ns : seg_pass C s t ns <> None.
+Proof.
+  unfold seg_pass. destruct (pass C (hup s) (peof s) (rdy s) (rdh s) (psig s) (pn s) (todo s) ns []) as [[[[n td] r] ns'] dr].
+  destruct r; try discriminate. apply fin_pass_total.
+Qed.
+Lemma wake_end_total C s t ns : wake_end C s t ns <> None.
+Proof. unfold wake_end. apply seg_pass_total. Qed.
+Lemma cb_end_total C s t ns : cb_end C s t ns <> None.
+Proof. unfold cb_end. destruct (cbk s); [apply exit_test_total|apply wake_end_total]. Qed.
+Lemma cb_next_total C s t k ns : cb_next C s t k ns <> None.
+Proof. unfold cb_next. destruct (S k <? length (cbs s)); [discriminate|apply cb_end_total]. Qed.
+
+(* a step of one thread leaves the program points of the others alone *)
+Lemma step_other_thr C s t c s' l u : step C s t c = Some (s', l) -> u <> t -> thr s' u = thr s u.
+Proof.
+  intros Hs Hne. step_inv Hs; tail_frames;
+    try (match goal with F : tframe _ _ _ |- _ => rewrite (tf_thr _ _ _ F) by exact Hne end);
+    nrmg; try reflexivity; apply upd_other; exact Hne.
+Qed.
